@@ -220,10 +220,18 @@ func HarnessC11RoundTrip(afc, flags, level int) {
 	vassert("C11.rt.parse.err", err == nil)
 	sink := newVSink()
 	mx := NewMuxer(vCtx{}, sink)
+	// the muxer has been used before (tables and a PES unit went through its internal buffers) and is used again after
+	mx.AddElementaryStream(PMTElementaryStream{ElementaryPID: 0x100, StreamType: StreamTypeAACAudio})
+	mx.SetPCRPID(0x100)
+	mx.WriteData(&MuxerData{PID: 0x100, PES: &PESData{Header: &PESHeader{StreamID: 0xc0}, Data: []byte{1, 2, 3, 4, 5}}})
+	pos := len(sink.buf)
+	vassert("C11.rt.prior", pos == 3*188)
 	n, err := mx.WritePacket(p)
 	vassert("C11.rt.write.err", err == nil)
 	vassert("C11.rt.n", n == 188)
-	vassert("C11.rt.bytes", vBytesEq(sink.buf, x))
+	vassert("C11.rt.bytes", vBytesEq(sink.buf[pos:], x))
+	n, err = mx.WritePacket(p)
+	vassert("C11.rt.again", err == nil && n == 188 && vBytesEq(sink.buf[pos+188:], x))
 	vreach("C11.rt.end")
 }
 
